@@ -119,6 +119,34 @@ fn case_policy(out: &mut CaseOut, seed: u64, idx: u64) {
                 }
             }
         }
+        // a filter is consulted by whatever policy of the same name the database is opened with later:
+        // the probe count travels inside the filter, so a policy built with any other bits-per-key
+        // setting must give the same answer for members
+        let other_bits = rng.range(1, 65) as usize;
+        let other = BloomFilterPolicy::new(other_bits);
+        out.add("cross_policy_member_probes", keys.len() as u64);
+        for k in &keys {
+            match other.key_may_match(k, &filter) {
+                Ok(true) => {}
+                Ok(false) => {
+                    out.violate(
+                        "C14/policy/member-reported-absent-by-policy-with-other-bits",
+                        json!({"built_with_bits_per_key": bits, "consulted_with_bits_per_key": other_bits, "set_size": keys.len(), "key": show(k), "style": style}),
+                    );
+                    break;
+                }
+                Err(e) => {
+                    out.violate(
+                        "C14/policy/member-probe-error-by-policy-with-other-bits",
+                        json!({"built_with_bits_per_key": bits, "consulted_with_bits_per_key": other_bits, "key": show(k), "error": format!("{e:?}")}),
+                    );
+                    break;
+                }
+            }
+        }
+        if keys.len() >= 2 && other_bits != bits {
+            out.nontrivial(format!("policy/cross/{}", if (other_bits as f64 * 0.69) as usize > (bits as f64 * 0.69) as usize { "more-probes" } else { "fewer-or-equal-probes" }));
+        }
         // sanity figure only: false-positive rate with bits_per_key >= 10
         if bits >= 10 && keys.len() >= 50 {
             for _ in 0..50 {
@@ -194,7 +222,12 @@ fn case_table(out: &mut CaseOut, seed: u64, idx: u64) {
             return;
         }
     };
-    let reader = match table::open(&options, 9) {
+    // every third table is read back by a database configured with another bits-per-key setting
+    let read_bits = if idx % 3 == 1 { *rng.pick(&[1usize, 4, 10, 16, 30, 64]) } else { bits };
+    let mut read_options = options.clone();
+    read_options.filter_policy = Arc::new(BloomFilterPolicy::new(read_bits));
+    let ctx = json!({"family": family.name(), "max_block_size": block, "bits_per_key": bits, "read_with_bits_per_key": read_bits, "entries": entries.len(), "layout": layout});
+    let reader = match table::open(&read_options, 9) {
         Ok(r) => r,
         Err(e) => {
             out.violate("C14/table/open-failed", json!({"ctx": ctx, "error": e}));
@@ -227,6 +260,9 @@ fn case_table(out: &mut CaseOut, seed: u64, idx: u64) {
     if ranges >= 2 {
         let blocks_per_range = if block >= 2048 { "block-spans-ranges" } else if block <= 128 { "many-blocks-per-range" } else { "few-blocks-per-range" };
         out.nontrivial(format!("table/{blocks_per_range}/bits{bits}/{}", family.name()));
+        if read_bits != bits {
+            out.nontrivial(format!("table/{blocks_per_range}/built{bits}-read{read_bits}"));
+        }
     }
     out.sample = Some(json!({"family": "table", "keys": family.name(), "max_block_size": block, "bits_per_key": bits,
         "entries": entries.len(), "file_size": size, "approx_data_bytes": data_bytes, "filter_ranges_2KiB": ranges}));
